@@ -288,7 +288,7 @@ def main():
                 "samples": samples or [{"note": "no completed path"}],
                 "obligations": n_obl, "discharged": n_dis, "queries": nq, "solver_unknown": unknown,
                 "solver_time_s": round(tsolve, 2),
-                "second_solver": {"solver": "cvc5 (python wheel)", "sampling": f"every {explore.XCHECK_EVERY}-th obligation answered unsat by z3, per worker" if explore.XCHECK_EVERY else "off",
+                "second_solver": {"solver": "cvc5 (python wheel)", "sampling": f"per worker: the first {explore.XCHECK_FIRST} obligations answered unsat by z3, then every {explore.XCHECK_EVERY}-th" if explore.XCHECK_EVERY else "off",
                                   "requeried": xc["n"], "agree_unsat": xc["agree"], "cvc5_unknown_or_timeout": xc["unknown"], "disagree": xc["disagree"],
                                   "time_s": round(xc["t"], 2), "time_limit_ms": explore.XCHECK_TLIMIT_MS},
                 "harnesses": sorted({h.name for h in hs}),
